@@ -797,12 +797,14 @@ func (w *c04World) signerFails(s *c04State) string {
 		c.Fail("signer-error-lost", "FillAllInputs", "signer failed at call %d (%s) but FillAllInputs returned %v", k, name, err)
 		return name
 	}
+	// Whatever the failed call did sign must be a valid ALL|FORKID signature. Which inputs those are is the
+	// library's business (up to the failure point, or none at all in an all-or-nothing implementation): an input
+	// counts as signed by this call iff its unlocking script changed.
 	for i := 0; i < nin; i++ {
-		if i < k {
+		now := scriptBytes(tx.Inputs[i].UnlockingScript)
+		if !bytes.Equal(now, before[i]) && len(now) > 0 {
 			s.recordSigned(i, 0x41)
-		} else if !bytes.Equal(scriptBytes(tx.Inputs[i].UnlockingScript), before[i]) {
-			c.Fail("half-done", "FillAllInputs", "input %d was modified although the signer failed at call %d", i, k)
-			return name
+			c.Count("probe.signed_before_signer_failed", 1)
 		}
 	}
 	if c.Bool(1, 2) {
